@@ -262,7 +262,9 @@ def concat_sarr(eng, seq):
     body = parts[-1][2](i - offs[-1], kind)
     for (n, _, get), off in reversed(list(zip(parts[:-1], offs[:-1]))):
         body = z3.If(i < z3.simplify(off + n), get(i - off, kind), body)
-    return SArr(z3.Lambda([i], body), total, kind, name="concat")
+    out = SArr.fresh(kind, total, name="concat")  # a fresh array constant defined cell by cell (stable triggers), same meaning as the lambda term
+    eng.assume(z3.ForAll([i], z3.Implies(z3.And(i >= 0, i < total), z3.Select(out.arr, i) == body), patterns=[z3.Select(out.arr, i)]))
+    return out
 
 
 def _ite_items(items, i, kind):
